@@ -62,6 +62,13 @@ Ltac split_wf H :=
   unfold prim_wf in H; cbn [prim_out prim_ins prim_guard forallb] in H;
   repeat (apply andb_prop in H; let H2 := fresh "Hg" in destruct H as [H H2]).
 Ltac first3 := do 2 eexists; split; [reflexivity | split; [reflexivity | split; [reflexivity|]]].
+(* emitters that choose between two texts still print one assign to the whole result net *)
+Lemma inl_range_shape r a hi lo : exists e, inl_range r a hi lo = [(whole r, e)].
+Proof. unfold inl_range. destruct ((snd a =? 1) && (hi =? 0) && (lo =? 0)); eexists; reflexivity. Qed.
+Lemma inl_signextend_shape r a : exists e, inl_signextend r a = [(whole r, e)].
+Proof. unfold inl_signextend. destruct (snd r <=? snd a); eexists; reflexivity. Qed.
+Ltac shaped Hs := let e := fresh "e" in let He := fresh "He" in
+  destruct Hs as [e He]; match type of He with _ = [(?l, _)] => exists l, e end; split; [exact He | split; [reflexivity | split; [reflexivity|]]].
 
 Theorem prim_sound p : prim_wf p = true -> Forall (okn env) (prim_ins p) ->
   exists l e, prim_assigns p = [(l, e)] /\
@@ -82,7 +89,7 @@ Proof.
   - first3. apply inl_shl_sound; auto; lia.
   - first3. apply inl_shr_sound; auto; lia.
   - first3. apply inl_mux2_sound; auto; lia.
-  - first3. apply inl_range_sound; auto; lia.
+  - shaped (inl_range_shape r a hi lo). apply (inl_range_sound env r a hi lo); auto; lia.
   - first3. apply inl_bit_sound; auto; lia.
   - (* constant: the l-value is r[w-1:0] for w > 1 *)
     destruct (inl_constant_sound env r v ltac:(lia) ltac:(lia) _ _ eq_refl) as [Hlw Hv].
@@ -90,16 +97,16 @@ Proof.
     + destruct (1 <? snd r); cbn [ltarget whole]; [|reflexivity]. do 2 f_equal. lia.
     + destruct (1 <? snd r); reflexivity.
   - first3. apply inl_smul_sound; auto; lia.
-  - first3. apply inl_signextend_sound; auto; lia.
+  - shaped (inl_signextend_shape r a). apply (inl_signextend_sound env r a); auto; lia.
   - first3. rewrite combine_widths_vals.
-    apply (inl_concat_sound env r ins); auto; [destruct ins; [discriminate|congruence] | lia].
+    apply (inl_concat_sound env r ins); auto; lia.
   - first3. rewrite combine_widths_vals.
-    apply (inl_concat_sound env r ins); auto; [destruct ins; [discriminate|congruence] | lia].
+    apply (inl_concat_sound env r ins); auto; lia.
   - first3. apply inl_repeat_sound; auto; lia.
-  - (* Xor2: a ^ b  =  the 4-NAND network (C08_xor2) *)
+  - (* Xor2: a ^ b  =  the 4-NAND network with max-wide internal wires (C08_xor2_mid_max): ANY widths *)
     assert (Ha : okn env a) by assumption. assert (Hb : okn env b) by assumption.
     first3. rewrite (bin_ctx env r a b BXor eq_refl) by (first [assumption | discriminate | lia]). cbn [bop].
-    rewrite C08_xor2; [unfold xor2_spec; apply trunc_mod; lia | destruct Ha; lia | destruct Hb; lia | unfold mid_a; lia | exact (proj2 Ha) | exact (proj2 Hb)].
+    rewrite C08_xor2_mid_max; [unfold xor2_spec; apply trunc_mod; lia | destruct Ha; lia | destruct Hb; lia | lia | exact (proj2 Ha) | exact (proj2 Hb)].
   - (* Nand2: ~(a & b)  =  Not(And2) with Mid of a's width (C08_nand2) *)
     assert (Ha : okn env a) by assumption. assert (Hb : okn env b) by assumption.
     first3. match goal with |- assign_value env ?l0 ?e0 = _ => rewrite (inl_nnary_sound env BAnd r a [b] eq_refl Ha (Forall_cons _ Hb (Forall_nil _)) ltac:(lia) l0 e0 eq_refl) end.
@@ -136,11 +143,10 @@ Proof.
       rewrite Forall_forall in Ht. destruct (Ht n Hn) as [Hwn Hvn].
       rewrite forallb_forall in Hle. specialize (Hle n Hn).
       unfold fits. eapply small_in_wider; [|exact Hvn]. lia.
-  - (* Equal: (a == b) ? 1 : 0  =  Xor2 + BitsLSBF + Nor (C08_equal), equal operand widths *)
+  - (* Equal: (a == b) ? 1 : 0  =  Xor2 + BitsLSBF + Nor (C08_equal_eqw_max): ANY operand widths *)
     assert (Ha : okn env a) by assumption. assert (Hb : okn env b) by assumption.
     first3. match goal with |- assign_value env ?l0 ?e0 = _ => rewrite (inl_equal_sound env r a b Ha Hb ltac:(lia) l0 e0 eq_refl) end.
-    replace (snd b) with (snd a) by lia. rewrite C08_equal; unfold eqw_a, mid_a; [reflexivity | destruct Ha; lia | destruct Ha; lia | destruct Ha; lia | lia | exact (proj2 Ha) |].
-    destruct Hb as [Hwb Hvb]. unfold fits. replace (snd a) with (snd b) by lia. exact Hvb.
+    rewrite C08_equal_eqw_max; [reflexivity | destruct Ha; lia | destruct Hb; lia | exact (proj2 Ha) | exact (proj2 Hb)].
   - (* EqualConstant: (a == K) ? 1 : 0  =  Minterm over the bits of a (C08_equal_constant), 0 <= K < 2^w *)
     assert (Ha : okn env a) by assumption.
     first3. match goal with |- assign_value env ?l0 ?e0 = _ => rewrite (inl_equalconst_sound env r a v Ha ltac:(lia) ltac:(lia) l0 e0 eq_refl) end.
